@@ -233,6 +233,13 @@ func (g *G) planCreate(stream string, id string, poolSize int, kind Item, varian
 		}
 	}
 	c.Resps = p.responses()
+	// hooks never conflict: a third of the plugins that answer with an adjustment also append hooks (the view
+	// of every hook list and the order of all plugins' hooks in the reply are compared)
+	for i := range c.Resps {
+		if c.Resps[i].Adjust != nil && g.r.Intn(3) == 0 {
+			c.Resps[i].Adjust.Hooks = g.hooks(c.Plugins[i] + 1)
+		}
+	}
 	return c
 }
 
@@ -266,8 +273,11 @@ func (g *G) planIgnored(p *planner, n int, targets []string) {
 	// aftermath: a claim made BEFORE the dropped update must survive it — half of the time a later plugin
 	// collides with an item the first plugin set (an item the dropped update does not name): conflict expected
 	if j < n-1 && g.r.Intn(3) != 0 {
-		g.aftermath++ // walk through every updatable item kind in turn, then random ones
-		cand := append([]Item{updatableItems[g.aftermath%len(updatableItems)]}, g.randomItems(updatableItems, 4)...)
+		g.aftermath++   // walk through every updatable item kind in turn, then random ones
+		var cand []Item // every updatable item kind gets its turn: the list rotated by the call number
+		for x := range updatableItems {
+			cand = append(cand, updatableItems[(g.aftermath+x)%len(updatableItems)])
+		}
 		for _, z := range cand {
 			named := false
 			for _, it := range mine {
@@ -418,13 +428,13 @@ func driveAdapt(c *hx.Ctx) error {
 	for k := 0; k < c.Pick(40, 500); k++ {
 		cases = append(cases, g.planCreate("selfupdate", nextID(), poolSize, Item{}, 0))
 	}
-	for k := 0; k < c.Pick(60, 1000); k++ {
+	for k := 0; k < c.Pick(100, 1000); k++ {
 		cases = append(cases, g.planCreate("ignore", nextID(), poolSize, Item{}, 0))
 	}
 	for k := 0; k < c.Pick(150, 2500); k++ {
 		cases = append(cases, g.planUpdate("udisjoint", nextID(), poolSize, Item{}))
 	}
-	for k := 0; k < c.Pick(60, 1000); k++ {
+	for k := 0; k < c.Pick(100, 1000); k++ {
 		cases = append(cases, g.planUpdate("uignore", nextID(), poolSize, Item{}))
 	}
 	for k := 0; k < c.Pick(60, 800); k++ {
